@@ -569,13 +569,14 @@ class Verifier:
             return 'unknown', None
         # quantified: E-matching only first (refutations are found fast), several seeds
         for seed in (0, 1, 2):
-            s0 = mk(False, seed, Q_RLIMIT)
+            # proofs that succeed need < 10M resource units; the retries with other seeds get a smaller budget
+            s0 = mk(False, seed, Q_RLIMIT if seed == 0 else Q_RLIMIT // 3)
             r0 = STATS.timed(lambda: s0.check())
             self.note_rlimit(s0, f'q0s{seed}', r0)
             if r0 == z3.unsat:
                 self.backends['z3-ematching'] = self.backends.get('z3-ematching', 0) + 1
                 return 'unsat', None
-        s = mk(True, 0, Q_RLIMIT)
+        s = mk(True, 0, Q_RLIMIT // 2)
         r = STATS.timed(lambda: s.check())
         self.note_rlimit(s, 'q1', r)
         if r == z3.unsat:
@@ -612,7 +613,7 @@ class Verifier:
         return 'unknown', None
 
     def cvc5_refutes(self, pc, neg):
-        return self.cvc5_verdict(pc, neg, 60000) == 'unsat'
+        return self.cvc5_verdict(pc, neg, 30000) == 'unsat'
 
     def cvc5_verdict(self, pc, neg, tlimit_ms):
         import subprocess, tempfile
